@@ -22,7 +22,7 @@ CACHE = os.path.join(VERIF, ".cache")
 
 # (file in src, module declaration appended)
 CHILD_MODULES = [
-    ("lib.rs", '#[path = "%(R)s/exec_root.rs"] pub mod verif_exec;\n#[path = "%(R)s/exec_e2e.rs"] pub mod verif_exec_e2e;\n#[path = "%(R)s/exec_proofs.rs"] pub mod verif_exec_proofs;\n#[path = "%(R)s/exec_crash.rs"] pub mod verif_exec_crash;\n#[path = "%(R)s/exec_misc.rs"] pub mod verif_exec_misc;\n#[path = "%(R)s/exec_merkle.rs"] pub mod verif_exec_merkle;\n'),
+    ("lib.rs", '#[path = "%(R)s/exec_root.rs"] pub mod verif_exec;\n#[path = "%(R)s/exec_e2e.rs"] pub mod verif_exec_e2e;\n#[path = "%(R)s/exec_proofs.rs"] pub mod verif_exec_proofs;\n#[path = "%(R)s/exec_crash.rs"] pub mod verif_exec_crash;\n#[path = "%(R)s/exec_misc.rs"] pub mod verif_exec_misc;\n#[path = "%(R)s/exec_merkle.rs"] pub mod verif_exec_merkle;\n#[path = "%(R)s/exec_deps.rs"] pub mod verif_exec_deps;\n'),
     ("bitfield/mod.rs", '#[path = "%(R)s/exec_bitfield.rs"] pub(crate) mod verif_exec;\n'),
     ("oplog/mod.rs", '#[path = "%(R)s/exec_oplog.rs"] pub(crate) mod verif_exec;\n'),
 ]
